@@ -133,6 +133,12 @@ class _NoDecide(Hooks):
         return getattr(self.inner, name)
 
 
+# every other hook is the inner one's (the base class defines them all, so __getattr__ alone would never be consulted)
+for _name in ("external_call", "tensor_method", "tensor_attr", "truthy", "on_yield", "on_with", "subscript", "on_call",
+              "isinstance", "global_name"):
+    setattr(_NoDecide, _name, (lambda n: lambda self, *a, **k: getattr(self.inner, n)(*a, **k))(_name))
+
+
 def new_output_buffer(args=(), kwargs=None, head=None):
     """A preallocated output tensor: writes `buf[k] = v` are logged in order; `dtype` is what it was created with (a
     write converts to it).  `head` seeds the log with the symbol standing for everything written before the loop head."""
@@ -567,7 +573,18 @@ def rule_last_steps(ctx, rule_id, drift=True):
                       + "a genuine remainder (dt/2, dt/10) stays a clipped step of its own; an exact grid ends at ts[-1]")
     fi, prologue, for_node, while_node, tail, epilogue = loop_structure(model)
     rep.analysed(fi)
-    dt, T = Fraction(1, 10), Fraction(8, 10)
+    _last_steps_model(ctx, rule_id, drift, Fraction(0))
+    # the same situations far from the origin of time: what counts as a rounding-size remainder is relative to the step,
+    # never to |t| (a tolerance such as isclose's 1e-5 |t| exceeds the whole step once |t| / dt > 1e5)
+    _last_steps_model(ctx, rule_id, drift, Fraction(2 ** 20))
+    ctx.floor(rule_id, 36 if drift else 14)
+
+
+def _last_steps_model(ctx, rule_id, drift, offset):
+    rep, model = ctx.rep, ctx.model
+    fi, prologue, for_node, while_node, tail, epilogue = loop_structure(model)
+    dt, T = Fraction(1, 10), offset + Fraction(8, 10)
+    far = f" (times shifted by {offset})" if offset else ""
     cases = []
     for k in ((9, 12, 15) if drift else ()):
         d = dt / Fraction(10) ** k
@@ -612,7 +629,7 @@ def rule_last_steps(ctx, rule_id, drift=True):
                     env[xname] = c0 + k_steps
             hooks = LoopHooks({})
             it = Interp(model, hooks)
-            construct = f"{fi.key}::{rule_id}::{'adaptive' if adaptive else 'fixed'}::{name}"
+            construct = f"{fi.key}::{rule_id}::{'adaptive' if adaptive else 'fixed'}::{name}{far}"
             try:
                 it.exec_block(while_node.body, env, fi)
             except Exception as e:          # SimRaise / AnalysisError: the model could not be evaluated
@@ -623,11 +640,10 @@ def rule_last_steps(ctx, rule_id, drift=True):
                 raise AnalysisError(f"{rule_id} model ({name}): no step starts at the loop-head time", where=astq.loc(fi, while_node))
             end = max(ends)
             rep.check(end == want_end, rule_id, astq.loc(fi, while_node), construct,
-                      f"model dt=1/10, ts[-1]=8/10, curr_t = {float(start):.17g} ({name}): the step ends at ts[-1] - "
+                      f"model dt=1/10, ts[-1]={T}, curr_t = ts[-1] - {float(T - start):.17g} ({name}{far}): the step ends at ts[-1] - "
                       f"{float(T - end):.3g} instead of ts[-1] - {float(T - want_end):.3g} ({why}); with floating-point "
                       f"accumulation (e.g. ts=[0, 0.8], dt=0.1) the solver then takes an extra step of rounding-error length, "
                       f"which reversible Heun does not undo (forward/backward grids differ): reconstruction error ~5e-3, "
                       f"adjoint gradients off by ~1e-2", why)
-    ctx.floor(rule_id, 18 if drift else 7)
 
 
